@@ -11,6 +11,7 @@ Rules (applied bottom-up, to a fixpoint; the result is a deep copy, the parsed m
   match    `match <path>: case <literal | dotted name | None | a | b>: ... case _: ...`  ->  if / elif / else on `==` (`is`)
   attr     getattr(o, "name") -> o.name ;  setattr(o, "name", v) -> o.name = v          (identifier literals only)
   unroll   `for x in (<literals>): body` (no break / continue / else, x not rebound) -> the bodies, x replaced
+  literal  `d = {...}` directly followed by `d["k"] = v` statements -> one dict literal
   comp     `d = {}` + `for T in I: d[K] = V`  ->  `d = {K: V for T in I}` ;  `l = []` + `l.append(V)` -> list comprehension
            (an `if c:` around the store, or `if c: continue` before it, becomes the comprehension's condition)
   ifexp    `if c: x = A  else: x = B` -> `x = A if c else B` ;  `x = <literal>` + `if c: x = A` -> `x = A if c else <literal>`
@@ -367,6 +368,7 @@ class Normalizer:
             blk = match_to_if(blk)
             blk = unroll_loops(blk)
             blk = setattr_stmts(blk)
+            blk = merge_dict_stores(blk)
             blk = loops_to_comprehensions(blk)
             blk = cond_assign(blk)
             blk = self.inline_statements(blk, rel, cls, depth)
@@ -791,6 +793,36 @@ def loops_to_comprehensions(blk):
                         "set": lambda: ast.SetComp(elt=st[2], generators=[gen])}[st[0]]()
                 out.append(ast.copy_location(ast.Assign(targets=s.targets, value=comp), s))
                 i += 2
+                continue
+        out.append(s)
+        i += 1
+    return out
+
+
+def merge_dict_stores(blk):
+    """`d = {...literal keys...}` directly followed by `d["k"] = v` statements (v not reading d, k a new literal key)
+    -> one dict literal."""
+    out, i = [], 0
+    while i < len(blk):
+        s = blk[i]
+        if isinstance(s, ast.Assign) and len(s.targets) == 1 and isinstance(s.targets[0], ast.Name) and isinstance(s.value, ast.Dict) \
+                and all(isinstance(k, ast.Constant) for k in s.value.keys):
+            name = s.targets[0].id
+            keys, vals = list(s.value.keys), list(s.value.values)
+            j = i + 1
+            while j < len(blk):
+                t = blk[j]
+                if not (isinstance(t, ast.Assign) and len(t.targets) == 1 and isinstance(t.targets[0], ast.Subscript)
+                        and isinstance(t.targets[0].value, ast.Name) and t.targets[0].value.id == name
+                        and isinstance(t.targets[0].slice, ast.Constant) and not _uses(name, t.value)
+                        and t.targets[0].slice.value not in [k.value for k in keys]):
+                    break
+                keys.append(t.targets[0].slice)
+                vals.append(t.value)
+                j += 1
+            if j > i + 1 and (keys != s.value.keys):
+                out.append(ast.copy_location(ast.Assign(targets=s.targets, value=ast.Dict(keys=keys, values=vals)), s))
+                i = j
                 continue
         out.append(s)
         i += 1
